@@ -5,6 +5,7 @@ import (
 	"flag"
 	"fmt"
 	"math/rand"
+	"sort"
 	"strings"
 	"sync"
 	"time"
@@ -90,6 +91,25 @@ func freshSource(rng *rand.Rand, uniq int) string {
 	return src
 }
 
+// canonical rendering of what loading a script set returned (per script: accepted or its error)
+func loadRender(set map[string]string) string {
+	ok, errs := engine.ParseScript(set, funcs.FuncsMap, funcs.FuncsCheckMap)
+	names := []string{}
+	for n := range set {
+		names = append(names, n)
+	}
+	sort.Strings(names)
+	var b strings.Builder
+	for _, n := range names {
+		if _, acc := ok[n]; acc {
+			fmt.Fprintf(&b, "%s: accepted\n", n)
+		} else {
+			fmt.Fprintf(&b, "%s: %v\n", n, errs[n])
+		}
+	}
+	return b.String()
+}
+
 // canonical rendering of what parsing returned (tree or error)
 func parseRender(name, src string) string {
 	ss, err := parser.ParsePipeline(name, src)
@@ -141,6 +161,11 @@ func raceRun(args []string) (any, error) {
 	sum := &Summary{Extra: map[string]any{}}
 	runs, parses, nfresh := 0, 0, 0
 	var parsed [][2]string
+	type loadedSet struct {
+		set map[string]string
+		got string
+	}
+	var loaded []loadedSet
 	for r := 0; r < *rounds; r++ {
 		g := 2 + rng.Intn(*maxG-1)
 		var wg sync.WaitGroup
@@ -163,10 +188,14 @@ func raceRun(args []string) (any, error) {
 				time.Sleep(delay)
 				if kind == 0 {
 					got := parseRender("p.p", src)
-					_, _ = engine.ParseScript(map[string]string{"s": src}, funcs.FuncsMap, funcs.FuncsCheckMap)
+					// ... and a load of a linked set built around it (use() linking, pattern scoping, check pass)
+					set := map[string]string{"a.p": src + "\nuse(\"b.p\")\n", "b.p": "add_pattern(\"pp\", \"\\\\d+\")\ngrok(_, \"%{pp:n:int}\")\n" + src,
+						"c.p": "use(\"a.p\")\nuse(\"b.p\")\n", "d.p": "use(\"nosuch.p\")"}
+					gotL := loadRender(set)
 					mu.Lock()
 					parses++
 					parsed = append(parsed, [2]string{src, got})
+					loaded = append(loaded, loadedSet{set, gotL})
 					mu.Unlock()
 					return
 				}
@@ -187,6 +216,12 @@ func raceRun(args []string) (any, error) {
 				sum.miss("race-parse:"+pr[0], map[string]any{"source": pr[0], "alone": alone, "concurrently": pr[1], "goroutines": g})
 			}
 		}
+		for _, ls := range loaded {
+			if alone := loadRender(ls.set); alone != ls.got {
+				sum.miss("race-load:"+ls.set["a.p"], map[string]any{"scripts": ls.set, "alone": alone, "concurrently": ls.got, "goroutines": g})
+			}
+		}
+		loaded = loaded[:0]
 		parsed = parsed[:0]
 		sum.Evaluations++
 	}
